@@ -67,11 +67,14 @@ impl Future for YieldOnce {
     }
 }
 
-/// Logs `what` and, when hooks are enabled, returns `Pending` exactly once.
+/// Logs `what` and, when hooks are enabled, returns `Pending` exactly once; when the task is
+/// polled again it logs "try" (the acquisition that follows is attempted in that poll, so a poll
+/// that only enqueues the task as a waiter is still visible as a step).
 pub async fn yield_point(site: u32, what: &'static str) {
     if ENABLED.with(|e| e.get()) {
         event(site, what);
-        YieldOnce(false).await
+        YieldOnce(false).await;
+        event(site, "try");
     }
 }
 
